@@ -456,7 +456,9 @@ def run(ctx: Ctx):
     # O5 routing
     w = ctx.func("rust", "with_rust_backend.wrapper")
     t = ast.unparse(w.node)
-    ok = "return adapter(*args, **kwargs)" in t and t.rstrip().endswith("return fn(*args, **kwargs)") and "_adapters.get(fn.__name__)" in t
+    rets_ = [ast.unparse(n.value) if n.value is not None else "None" for n in own_nodes(w.node) if isinstance(n, ast.Return)]
+    last_ = w.node.body[-1]
+    ok = "adapter(*args, **kwargs)" in rets_ and "fn(*args, **kwargs)" in rets_ and set(rets_) <= {"adapter(*args, **kwargs)", "fn(*args, **kwargs)"} and isinstance(last_, ast.Return) and "_adapters.get(fn.__name__)" in t
     ctx.ob("C12-O5", "R18 routing", w, "decorator forwards *args/**kwargs unchanged to the adapter and to the Python body; falls back when no adapter is registered", ok, "", node=w.node)
     cfg = cfg_of(w.node)
     gv = GuardView(cfg)
